@@ -87,7 +87,7 @@ def gen_network(rng):
     for j in range(n_extra):
         ids = rng.sample([r["id"] for r in rxns], rng.choice([1, 2, 2, 3]))
         extra.append({"name": "uc%d" % j, "coefs": {i: str(rng.choice([F(1), F(-1), F(2), F(1, 2)])) for i in ids},
-                      "below": rng.choice([None, "1/2", "1", "2", "0"]), "above": rng.choice([None, "1/2", "1", "3"])})
+                      "below": rng.choice([None, "1/2", "1", "2", "0"]), "above": rng.choice([None, "1/2", "1", "3", "0"])})
         if extra[-1]["below"] is None and extra[-1]["above"] is None:
             extra[-1]["above"] = "1"
     return {"mets": mets, "rxns": rxns, "extra": extra, "tolerance": rng.choice([None, None, None, 1e-6])}
